@@ -94,6 +94,11 @@ def labeller(lab, ids):
         groups = {}
         for i, g in mapping.items():
             groups.setdefault(g, []).append(i)
+        if lab["salt"] % 2:
+            # the lists say which IDs belong to a group, in any order, and
+            # may name IDs this table does not hold
+            groups = {g: ["not-in-this-table-" + g] + v[::-1]
+                      for g, v in groups.items()}
         if lab["tuple"]:
             groups = {g: tuple(v) for g, v in groups.items()}
         return groups, model
